@@ -799,7 +799,9 @@ impl Engine for ShellSim {
         //  stray datagram is interference)
         let in_quiet = self.profile == "repair" && (self.quiet_on || self.steps_done * 10 >= self.steps_total * 5);
         if let Some(l) = (0..self.n).find(|i| self.conns[*i].rtt.waiting_for_keepalive_response).filter(|_| !in_quiet) {
-            if rng.random_range(0..30) == 0 {
+            // (a link that has been reset and still waits for an echo: more often -- the window is short)
+            let odds = if self.conns[l].connected { 30 } else { 6 };
+            if rng.random_range(0..odds) == 0 {
                 let ts: u64 = match rng.random_range(0..6) {
                     0 => self.now + rng.random_range(1..10_000),
                     1 => self.now,
@@ -851,6 +853,14 @@ impl Engine for ShellSim {
         let mut r = rng.random_range(0..1000);
         if quiet && r < 30 {
             r = 500; // no faults, no configuration changes, no strays
+        }
+        // 3a. fault schedules: a send failure on a link whose RTT probe is outstanding (the reset cancels the probe; an
+        //     echo that still arrives on the unchanged socket is no sample)
+        if fault && rng.random_range(0..12) == 0 {
+            if let Some(l) = (0..self.n).find(|i| self.conns[*i].connected && self.conns[*i].rtt.waiting_for_keepalive_response && !self.sendfail[*i]) {
+                self.bump("send_failure_while_probe_outstanding");
+                return Some(json!({"ev": "SendFail", "l": l + 1}));
+            }
         }
         // 3. faults and configuration
         if fault && r < 12 || r < 2 {
